@@ -409,27 +409,27 @@ func runCheck(o checkOpts) int {
 	}
 	sort.Strings(assumptions)
 	cov := map[string]interface{}{
-		"obligations":          total + triv,
-		"discharged":           discharged + triv,
-		"discharged_by_solver": discharged,
+		"obligations":                        total + triv,
+		"discharged":                         discharged + triv,
+		"discharged_by_solver":               discharged,
 		"discharged_syntactically_by_engine": triv,
-		"smt_queries":          len(e.obls),
-		"known_findings":       known,
-		"checker_cmd":          fmt.Sprintf("bin/govc check -property %s -tier %s  (per query: z3 4.8.12 | z3-new 5.1.0 | cvc5 1.0 raced, timeout %ds)", o.prop, o.tier, o.timeout),
-		"trusted_base":         trusted,
-		"functions_under_contract": funcs,
-		"undecided_functions":  undecided,
-		"queries_by_backend":   bySolver,
-		"solver_time_s":        round2(solverTime),
-		"load_s":               round2(loadS),
-		"vcgen_s":              round2(genS),
-		"solve_wall_s":         round2(solveS),
-		"inlined_callees":      inlined,
-		"callee_contracts_used": usedC,
-		"vacuity_covers":       map[string]int{"covered": countVerdict(e.covers, "covered"), "vacuous": countVerdict(e.covers, "vacuous"), "unknown": countVerdict(e.covers, "cover-unknown")},
-		"samples":              samples,
-		"ledger_obligations":   len(ledger.Obligations),
-		"explanation":          "every obligation generated from /repo's working tree for the functions under contract of this property was sent to the solver portfolio; discharged == obligations means all were refuted-negation (unsat)",
+		"smt_queries":                        len(e.obls),
+		"known_findings":                     known,
+		"checker_cmd":                        fmt.Sprintf("bin/govc check -property %s -tier %s  (per query: z3 4.8.12 | z3-new 5.1.0 | cvc5 1.0 raced, timeout %ds)", o.prop, o.tier, o.timeout),
+		"trusted_base":                       trusted,
+		"functions_under_contract":           funcs,
+		"undecided_functions":                undecided,
+		"queries_by_backend":                 bySolver,
+		"solver_time_s":                      round2(solverTime),
+		"load_s":                             round2(loadS),
+		"vcgen_s":                            round2(genS),
+		"solve_wall_s":                       round2(solveS),
+		"inlined_callees":                    inlined,
+		"callee_contracts_used":              usedC,
+		"vacuity_covers":                     map[string]int{"covered": countVerdict(e.covers, "covered"), "vacuous": countVerdict(e.covers, "vacuous"), "unknown": countVerdict(e.covers, "cover-unknown")},
+		"samples":                            samples,
+		"ledger_obligations":                 len(ledger.Obligations),
+		"explanation":                        "every obligation generated from /repo's working tree for the functions under contract of this property was sent to the solver portfolio; discharged == obligations means all were refuted-negation (unsat)",
 	}
 	if len(drv) > 0 {
 		var ds []map[string]interface{}
@@ -489,16 +489,16 @@ func countVerdict(l []*Obligation, v string) int {
 // a concrete failing input was reproduced on the real code.
 func (e *Engine) tryReplay(o checkOpts, ob *Obligation, path string) bool {
 	rec := map[string]interface{}{
-		"property":   o.prop,
-		"obligation": ob.Name,
-		"kind":       ob.Kind,
-		"pos":        ob.Pos,
-		"verdict":    ob.Verdict,
-		"goal":       ob.Goal,
-		"path":       ob.Trail,
-		"solver":     ob.Solver,
+		"property":      o.prop,
+		"obligation":    ob.Name,
+		"kind":          ob.Kind,
+		"pos":           ob.Pos,
+		"verdict":       ob.Verdict,
+		"goal":          ob.Goal,
+		"path":          ob.Trail,
+		"solver":        ob.Solver,
 		"solver_output": ob.Output,
-		"model":      ob.Model,
+		"model":         ob.Model,
 	}
 	concrete := false
 	if d, ok := replayDrivers[o.prop]; ok {
